@@ -8,7 +8,6 @@ import (
 	"fmt"
 	"math/rand"
 	"reflect"
-	"regexp"
 	"strings"
 	"sync/atomic"
 	"time"
@@ -62,6 +61,18 @@ type finding struct {
 
 var ctx = context.Background()
 
+// callMark, when set (isolating child only), is told "in-call <API name>" before a call into
+// hive.go and "harness" after it returned.
+var callMark func(string)
+
+func inCall(name string) func() {
+	if callMark == nil {
+		return func() {}
+	}
+	callMark("in-call " + name)
+	return func() { callMark("harness") }
+}
+
 // classifyBudget bounds the number of shrink runs per process.
 var classifyBudget = func() *atomic.Int64 { b := new(atomic.Int64); b.Store(6000); return b }()
 
@@ -80,6 +91,7 @@ func safeEncode(api *serix.API, s *sergen.Shape, x any, validation bool) (b []by
 			pan = p
 		}
 	}()
+	defer inCall("Encode")()
 	b, err = api.Encode(ctx, x, opts(s, validation)...)
 	return
 }
@@ -90,6 +102,7 @@ func safeDecode(api *serix.API, s *sergen.Shape, b []byte, dst any, validation b
 			pan = p
 		}
 	}()
+	defer inCall("Decode")()
 	n, err = api.Decode(ctx, b, dst, opts(s, validation)...)
 	return
 }
@@ -100,6 +113,7 @@ func safeJSONEncode(api *serix.API, s *sergen.Shape, x any, validation bool, via
 			pan = p
 		}
 	}()
+	defer inCall("JSONEncode")()
 	if viaMap {
 		m, e := api.MapEncode(ctx, x, opts(s, validation)...)
 		if e != nil {
@@ -118,6 +132,7 @@ func safeJSONDecode(api *serix.API, s *sergen.Shape, b []byte, dst any, validati
 			pan = p
 		}
 	}()
+	defer inCall("JSONDecode")()
 	if viaMap {
 		m := map[string]any{}
 		if e := json.Unmarshal(b, &m); e != nil {
@@ -127,8 +142,6 @@ func safeJSONDecode(api *serix.API, s *sergen.Shape, b []byte, dst any, validati
 	}
 	return api.JSONDecode(ctx, b, dst, opts(s, validation)...), nil
 }
-
-var digits = regexp.MustCompile(`[0-9]+`)
 
 func short(s string, n int) string {
 	if len(s) > n {
@@ -187,7 +200,7 @@ func check(st *stats, u *sergen.Universe, s *sergen.Shape, v *sergen.Val, valida
 	case pan != nil:
 		if countIt {
 			st.count("encoder_panics_not_claimed", 1)
-			st.note("encpanic:"+digits.ReplaceAllString(fmt.Sprint(pan), "N"), fmt.Sprintf("observation (no property covers encoder totality): Encode panicked: %v on shape %s", pan, short(s.String(), 200)))
+			st.note("encpanic:"+signature(node{s, v, nil}), fmt.Sprintf("observation (no property covers encoder totality): Encode panicked: %v on shape %s", pan, short(s.String(), 200)))
 		}
 	case err != nil:
 		if countIt {
@@ -230,7 +243,7 @@ func check(st *stats, u *sergen.Universe, s *sergen.Shape, v *sergen.Val, valida
 		if countIt {
 			// determinism under map iteration order: rebuild (new maps, shuffled insertion) and re-encode
 			reps := 2
-			hasMap := strings.Contains(s.String(), "map<")
+			hasMap := containsMap(s, 0)
 			if hasMap {
 				reps = 8
 			}
@@ -278,7 +291,7 @@ func check(st *stats, u *sergen.Universe, s *sergen.Shape, v *sergen.Val, valida
 		case pan != nil:
 			if countIt {
 				st.count("json_encoder_panics_not_claimed", 1)
-				st.note("jencpanic:"+digits.ReplaceAllString(fmt.Sprint(pan), "N"), fmt.Sprintf("observation (no property covers encoder totality): JSONEncode panicked: %v on shape %s", pan, short(s.String(), 200)))
+				st.note("jencpanic:"+signature(node{s, v, nil}), fmt.Sprintf("observation (no property covers encoder totality): JSONEncode panicked: %v on shape %s", pan, short(s.String(), 200)))
 			}
 		case err != nil:
 			if countIt {
@@ -301,13 +314,15 @@ func check(st *stats, u *sergen.Universe, s *sergen.Shape, v *sergen.Val, valida
 			switch {
 			case dpan != nil:
 				add("json", "decode-panic", "JSONEncode accepted the value but JSONDecode panicked: %v; document %s", dpan, short(string(jb), 200))
-			case derr != nil && s.Kind == sergen.Map && strings.Contains(derr.Error(), "can't map decode: unsupported type *"):
-				// MapDecode/JSONDecode have no path for a pointer to a map as the destination (only for
-				// struct-like targets), so a top-level map is encodable to the map form but has no decoder at
-				// all. Recorded as an observation: the check claims the JSON form at top level for structs only.
+			case derr != nil && s.Kind == sergen.Map:
+				// Structural exemption (keyed on the harness's own schema, not on the error text): the shape
+				// handed to MapDecode/JSONDecode is a top-level map. Those decoders have a path for struct-like
+				// destinations only, so a top-level map is encodable to the map form but has no decoder.
+				// Whatever the error says it is recorded as an observation: the check claims the JSON round
+				// trip at top level for structs only. (If the decode succeeds, the usual comparison applies.)
 				if countIt {
-					st.count("json_toplevel_map_has_no_decoder_observation", 1)
-					st.note("jsontopmap", "observation: MapEncode/JSONEncode accept a top-level map value, MapDecode/JSONDecode reject every *map destination (\"can't map decode: unsupported type *map[…]\"); the JSON round trip is demanded for top-level structs only")
+					st.count("json_toplevel_map_decode_error_observation", 1)
+					st.note("jsontopmap", "observation: MapEncode/JSONEncode accept a top-level map value, MapDecode/JSONDecode return an error for a *map destination; the JSON round trip is demanded for top-level structs only")
 				}
 			case derr != nil:
 				add("json", "decode-error", "JSONEncode accepted the value but JSONDecode failed: %v; document %s", short(derr.Error(), 200), short(string(jb), 200))
@@ -317,7 +332,7 @@ func check(st *stats, u *sergen.Universe, s *sergen.Shape, v *sergen.Val, valida
 					add("json", "value-mismatch", "JSON-decoded value differs from the original at %s; document %s", path, short(string(jb), 200))
 				}
 			}
-			if countIt && strings.Contains(s.String(), "map<") {
+			if countIt && containsMap(s, 0) {
 				// observation only: JSON bytes under map iteration order
 				for i := 0; i < 3; i++ {
 					x2 := sergen.Build(s, v, rand.New(rand.NewSource(bseed+int64(i)+1))).Interface()
@@ -568,14 +583,34 @@ func runSerix(c *vf.Ctx, a *agg, workers int) {
 			var useed int64
 			var si int
 			fmt.Sscanf(res.LastMark, "universe %d shape %d", &useed, &si)
-			if strings.Contains(res.Stderr, "hive.go/serializer") {
-				c.Violation("bin:decode-killed-process", fmt.Sprintf("the process died (%s) inside hive.go/serializer while round-tripping values of %s", res.Fatal, res.LastMark),
-					replayRec{Part: "serix", USeed: useed, ShapeIdx: si, ValIdx: -1, Detail: res.Fatal})
+			// Attribute the death without reading stack traces: re-run that one shape in a fresh child
+			// that announces every call into hive.go before making it. If the re-run dies while such a
+			// call is in progress, the call did not return for bytes/values of the round trip -> violation;
+			// if it dies anywhere else (or not at all) the run is inconclusive.
+			iso := c.RunChild(vf.ChildOpts{Name: "serix-isolate", Args: []string{fmt.Sprint(useed), fmt.Sprint(si)}, MemKB: 3 << 20, Timeout: 3 * time.Minute})
+			var call string
+			if n, _ := fmt.Sscanf(iso.LastMark, "in-call %s", &call); n == 1 && iso.ExitCode != 0 && !iso.TimedOut {
+				c.Violation("bin:"+call+"-killed-process", fmt.Sprintf("the process died (exit %d) while %s was running on a value / on bytes of the round trip of universe %d shape %d", iso.ExitCode, call, useed, si),
+					replayRec{Part: "serix", USeed: useed, ShapeIdx: si, ValIdx: -1, Detail: "process death inside " + call})
 			} else {
-				c.Inconclusive(fmt.Sprintf("serix child %d died (%s, exit %d) at %s", w, res.Fatal, res.ExitCode, res.LastMark))
+				c.Inconclusive(fmt.Sprintf("serix child %d died (exit %d) at %s; the isolating re-run ended with exit %d at %q", w, res.ExitCode, res.LastMark, iso.ExitCode, iso.LastMark))
 			}
 		}
 	})
+}
+
+// child "serix-isolate": one shape, every call into hive.go announced.
+func serixIsolateChild(c *vf.Ctx) {
+	var useed int64
+	var si int
+	fmt.Sscan(c.ChildArgs[0], &useed)
+	fmt.Sscan(c.ChildArgs[1], &si)
+	callMark = func(name string) { c.Mark(name) }
+	u := sergen.NewDynamic(useed)
+	st := newStats()
+	c.Mark("harness")
+	exercise(st, u, si, u.Shapes[si], 40)
+	(&agg{c: c}).merge(st)
 }
 
 // child: universes start, start+stride, … < n
@@ -698,4 +733,30 @@ func orderingFlags(s *sergen.Shape, depth int) (mapFalse, mapTrue, sliceFalse in
 		}
 	}
 	return
+}
+
+// containsMap: the shape holds a map somewhere (structural, from the harness's own schema).
+func containsMap(s *sergen.Shape, depth int) bool {
+	if depth > 10 {
+		return false
+	}
+	switch s.Kind {
+	case sergen.Map:
+		return true
+	case sergen.Array, sergen.Slice, sergen.Ptr:
+		return containsMap(s.Elem, depth+1)
+	case sergen.Struct:
+		for _, f := range s.Fields {
+			if containsMap(f.S, depth+1) {
+				return true
+			}
+		}
+	case sergen.Iface:
+		for _, im := range *s.Impls {
+			if containsMap(im, depth+1) {
+				return true
+			}
+		}
+	}
+	return false
 }
